@@ -19,6 +19,12 @@ CLAIMED = {
         note="Model covers Frame.tobytes, Command.tobytes, all command classes, PropertyId.encode."),
 }
 
+CLAIMED["C14"] = dict(
+    text="Theorems (Lean 4, for ALL byte strings / ALL reply scripts, unbounded): Response.construct returns a response or InvalidFrame/InvalidResponse and nothing else (every index expression of every parser is modelled as a possible IndexError, so the proof is the evidence that none is left unguarded); _send_command_get_responses returns exactly the decodable frames in order; refresh/apply/get_capabilities/toggle_display/start_self_clean can only fail by failing to ENCODE one of their own commands, never because of a reply; refresh is total. Tie: model-vs-implementation correspondence on ~40k frames per run (every captured frame truncated to every length with checksums recomputed, every body byte set to boundary values, every response id, raw garbage) and mixed good/bad exchanges through the real operations; oracle = no exception other than the two allowed, and state equals the state obtained from the decodable frames alone. Two genuine defects were found and repaired (fix: e1e5d79, 11f899b).",
+    design="DESIGN.md §6 C14",
+    technique="Lean 4 containment theorem over a model with explicit IndexError at every index; differential correspondence + implementation-side oracle on malformed-but-checksummed frames",
+    note="Model covers Response.construct/validate, all response parsers, _send_command_get_responses and the five operations over a frame oracle.")
+
 NOT_YET = {
 }
 
